@@ -1,6 +1,6 @@
 \* exhaustive check of the repaired raw writer model (what chk_files.py generates for the quick tier of C14/C16)
 CONSTANTS NDev = 2 NPaths = 3 MaxCycles = 2 MaxAppends = 2 PacketSizes = {1, 2, 3} NScripts = 5
-  MaxFaultAt = 8 FIXED = 1 MaxFd = 5 Ghost = TRUE Export = FALSE
+  MaxFaultAt = 8 FIXED = 1 SetRunning = TRUE FIX_SET = 1 MaxFd = 5 Ghost = TRUE Export = FALSE
 SPECIFICATION Spec
 VIEW View
 INVARIANTS NoErr TypeOK OwnsItsFile RunningFile
